@@ -66,7 +66,7 @@ def window_pair_prover(I, N, F, LIN, lin_step, facts_at, sk0, sk1):
         for mx in I.ex.ghost.get("maxes", []):
             for y in (mx["ub"](N1), mx["ub"](N0)):
                 I.ex.instance(y)
-        I.ex.oblige("compaction.%s.extents" % tag, z3.And(rec["dims"][0] == N, rec["dims"][2] == F))
+        I.ex.oblige("structure.compaction.%s.extents" % tag, z3.And(rec["dims"][0] == N, rec["dims"][2] == F))
         I.ex.oblige("compaction.%s.window_inside_the_extent" % tag, z3.Implies(z3.And(0 <= N1, N1 < N), z3.And(0 <= lo(N1), lo(N1) <= hi(N1), hi(N1) <= ext)))
         row = lambda n, t: z3.And(t >= lo(n), t < hi(n))
         mm = lambda n, t, f: z3.Implies(z3.And(0 <= n, n < N, 0 <= t, t < ext, 0 <= f, f < F), rec["mask"]([n, t, f]) == row(n, t))
@@ -305,7 +305,7 @@ def prove_prefix_compaction(I, rec1, rec2, sm, N, T, F, LIN, lin_step, MASK, sk0
     N1, T1, F1 = sk1
     a_, b_, c_ = z3.Ints("a_q b_q c_q")
     PS = sm["S"]
-    I.ex.oblige("compaction.count_runs_over_the_frames", z3.And(sm["T"] == T, rec1["dims"][0] == N, rec1["dims"][1] == T, rec1["dims"][2] == F))
+    I.ex.oblige("structure.compaction.count_runs_over_the_frames", z3.And(sm["T"] == T, rec1["dims"][0] == N, rec1["dims"][1] == T, rec1["dims"][2] == F))
     I.ex.oblige("compaction.counted_value_is_the_mask", z3.Implies(z3.And(0 <= N1, N1 < N, 0 <= T1, T1 < T), sm["val"]([N1], T1) == z3.If(MASK(N1, T1), 1, 0)))
     cv = lambda n, t: z3.Implies(z3.And(0 <= n, n < N, 0 <= t, t < T), sm["val"]([n], t) == z3.If(MASK(n, t), 1, 0))
     I.ex.assume(z3.ForAll([a_, b_], cv(a_, b_)))
@@ -350,7 +350,7 @@ def prove_prefix_compaction(I, rec1, rec2, sm, N, T, F, LIN, lin_step, MASK, sk0
     same = lambda n: z3.Implies(z3.And(0 <= n, n <= N), c1[0](n) == c2[0](n))
     for y in (rec1["base"](0, []), rec2["base"](0, []), rec1["step"](0, [], N1), rec2["step"](0, [], N1), cl1(N1, T), cl2(N1, rec2["dims"][1])):
         I.ex.instance(y)
-    I.ex.oblige("compaction.destination.extent", rec2["dims"][1] == T)
+    I.ex.oblige("structure.compaction.destination.extent", rec2["dims"][1] == T)
     I.ex.oblige("compaction.sequences.base", same(z3.IntVal(0)))
     I.ex.oblige("compaction.sequences.step", z3.Implies(z3.And(0 <= N1, N1 < N, same(N1)), same(N1 + 1)))
     I.ex.assume(z3.ForAll([a_], same(a_)))
